@@ -13,6 +13,10 @@ CFG = {
         "Leptos.Async.C10_notify_marks_every_subscriber",
         "Leptos.Async.C10_dependents_notified_each_transition",
         "Leptos.Async.C10_version_check_redundant",
+        "Leptos.Async.SInv.run",
+        "Leptos.Async.C10_suspense_pending_while_covered",
+        "Leptos.Async.C10_suspense_released_when_idle",
+        "Leptos.Async.C10_suspense_released_when_settled",
         "Leptos.Async.C10_dirty_stolen_witness",
         "Leptos.Async.C10_settles_on_latest_old1_false",
         "Leptos.Async.C10_stale_initial_witness",
@@ -24,17 +28,27 @@ CFG = {
     "harness_pkg": "hx-c10",
     "harness_bin": "c10",
     "n": {"quick": 12000, "thorough": 400000},
-    "trivial_tags": ["plain", "no-effect", "effect-d", "settled", "fresh-completion", "multi-source", "init-value"],
-    "rule": "one real ArcAsyncDerived/AsyncDerived (sync and unsync constructors, with/without initial value) over 1-2 source signals, read by the fetcher "
-            "directly or through one memo of all of them, on the "
-            "harness-controlled executor, fetcher futures = oneshot receivers resolved by `complete`; optional subscriber Effect reading the derived "
-            "(alone, or before/after a memo of the sources); awaiters (`d.await`, `ready()`, `by_ref()`) attached at generated points. Cases: EVERY op "
-            "sequence of length <= 3 over {set, refetch, mset, complete, attach, poll 0/1/2} and of length 4 over {set, complete, mset, poll 0/1} for every "
-            "effect kind, every interleaving of two source writes with completions and polls of the derived's/effect's/awaiter's task after 5 preambles, "
-            "then seeded random histories (<= 30 ops, <= 4 awaiters); each followed by a settle suffix. Observable after every op: ready list (task kinds), "
-            "value and loading flag as the public API shows them, fetches started, inputs captured by the last fetch, what every awaiter resumed with, "
-            "every run of the subscriber effect. Oracle (harness bookkeeping only): value never fabricated; at settled points loading off, value = last "
-            "manual write or fetch(latest sources), all awaiters resumed, effect saw the current value. trivial = tag `plain` only",
+    "trivial_tags": ["plain", "no-effect", "effect-d", "settled", "fresh-completion", "multi-source", "init-value", "resource", "once-resource",
+                     "local-resource", "memo-source"],
+    "rule": "the real handles on the harness-controlled executor, fetcher futures = oneshot receivers resolved by `complete`: reactive_graph "
+            "ArcAsyncDerived/AsyncDerived (sync and unsync constructors, with/without initial value; 1-2 source signals read directly or through one "
+            "memo of all of them) and leptos_server Resource/ArcResource/Resource::new_blocking (source fn = all sources, `refetch` = Resource::refetch), "
+            "OnceResource/ArcOnceResource, LocalResource/ArcLocalResource (tick tasks of Executor::tick() appear in the ready list); optional subscriber "
+            "Effect reading the handle (alone, or before/after a memo of the sources); awaiters (`.await`, `ready()`, `by_ref()` where the API has them) "
+            "attached at generated points; a stand-in <Suspense/> boundary (child owner providing a SuspenseContext) reading the value synchronously "
+            "(`bread`) at every phase: no value + loading, value + idle, value + reloading. Cases: EVERY op sequence of length <= 3 over {set, refetch, "
+            "mset, complete, attach, poll 0/1/2} and of length 4 over {set, complete, mset, poll 0/1} for every effect kind and both source modes; every "
+            "interleaving of two source writes with completions and polls after 5 preambles; for the boundary every sequence of length <= 4 over {set, "
+            "complete, bread, poll 0/1, idle} on 6 handle flavours plus length 3 over {set, complete, bread, poll 0/1, mset, refetch} after a first "
+            "load; for resources every sequence of length <= 3 over {set, refetch, complete, poll 0/1, idle, mset, attach}, length 4-5 over {set, "
+            "refetch, complete, poll 0, idle} (also after a first load); local resources length <= 3 over {set, refetch, complete, attach, bread, poll "
+            "0/1/2}, 4-5 over {set, complete, poll 0/1/2}; once-resources length <= 3 over {complete, attach, attach r, bread, poll 0/1/2, idle}; then "
+            "seeded random histories over all flavours (<= 30 ops, <= 4 awaiters); each followed by a settle suffix. Observable after every op: ready "
+            "list (task kinds d/e/a/r/t), value and loading flag as the public API shows them, fetches started, inputs captured by the last fetch, what "
+            "every awaiter resumed with, every run of the subscriber effect, the boundary's task-list length. Oracle (harness bookkeeping only): value "
+            "never fabricated; whenever idle: the boundary's task list is non-empty while a load it has read from is in flight and empty when none is; at "
+            "settled points loading off, value = last manual write or fetch(latest sources), all awaiters resumed, effect saw the current value. "
+            "trivial = no tag other than the flavour/settled/fresh-completion ones",
     "trusted": [
         "hx_common::sched controlled executor standing in for any single-threaded executor (tasks polled one at a time)",
         "futures::channel::oneshot (fetcher futures), futures::task::AtomicWaker (modelled: wake takes the registered waker), async_lock::RwLock "
@@ -43,15 +57,18 @@ CFG = {
     "modelled": ["spawn_derived! task loop (arc_async_derived.rs)", "ArcAsyncDerived::notify_subs / set_inner_value", "ArcAsyncDerivedInner as ReactiveNode "
                  "(mark_dirty, update_if_necessary; Notifying)", "AsyncDerivedFuture / AsyncDerivedReadyFuture / AsyncDerivedRefFuture poll", "Write/Set impl "
                  "(manual write = store + notify)", "channel.rs", "Effect::new task + EffectInner::update_if_necessary", "MemoInner mark_dirty/update_if_necessary "
-                 "(one memo over signals)"],
+                 "(one memo over signals)", "ArcAsyncDerived::try_read_untracked under a SuspenseContext + the loop's suspense_ids (task ids held per fetch)",
+                 "leptos_server ArcResource::new_with_options (source memo (refetch, source()), untracked fetcher, refetch)", "ArcOnceResource (one future; "
+                 "Suspense handle only while there is no value)", "ArcLocalResource/LocalResource (Executor::tick() before every fetch; refetch = tracked signal)"],
     "assumptions": [
         "single-threaded executor (cross-thread races are C19)",
         "sources of the derived are plain signals, or one memo of all of them, read synchronously when the fetcher is called; the subscriber effect may read a second memo",
         "manual writes write Some(v) (a manual `None` with loading off makes `.await` panic on unwrap: outside the property)",
-        "Suspense/SuspenseContext bookkeeping and AsyncTransition (ready_tx) are not driven: without a SuspenseContext/transition in scope they are no-ops",
-        "leptos_server Resource/OnceResource/LocalResource are NOT covered by the correspondence (Resource wraps the same ArcAsyncDerived via "
-        "new_with_manual_dependencies with an untracked fetcher over a memo source; LocalResource adds Executor::tick): only the reactive_graph core "
-        "they delegate to is, including a tracked memo source",
+        "the Suspense boundary is a stand-in (owner + SuspenseContext + task list, as tachys' Suspense sets up); reads through it are synchronous "
+        "(`get_untracked` under the boundary's owner); `.await` under a boundary (Suspend) and AsyncTransition (ready_tx) are not driven",
+        "leptos_server is built natively without `ssr`/`hydration`: no shared context, so resources start unresolved and nothing is serialised; "
+        "LocalResource takes its client path (tick + fetch); the codecs other than the default JSON one are not exercised",
+        "a OnceResource has no sources: its future is started on the inputs given in the cfg line; `set`/`refetch`/`mset` do not apply to it",
     ],
     "manifest": {
         "category": "proof",
